@@ -36,6 +36,13 @@ def gen_lease_requester(seed, opts=None):
             'link': {'c2s': {'latency': 0.001, 'seed': 1}, 's2c': {'latency': _pick(rng, [(2, 0.001), (1, 0.0), (1, 0.003)]), 'seed': 2}},
             'auto': {'respond': 'complete', 'respond_delay': 0.001}, 'nontrivial': True}
     horizon_ms = _pick(rng, [(2, 200), (2, 2000), (1, 3_600_000)])
+    if rng.random() < 0.3:
+        # leases in both directions: the endpoint also grants leases to its peer (its own publisher); what it may send
+        # is governed by the leases it RECEIVES only
+        plan['endpoint']['lease_script'] = [{'at': round(rng.randint(0, 300) * MS, 4), 'n': _pick(rng, [(1, 0), (1, 3), (2, 1000)]),
+                                            'ttl_us': _pick(rng, [(1, 5_000), (1, 500_000), (2, 600_000_000)]), 'sync': rng.random() < 0.2}
+                                           for _ in range(rng.randint(1, 4))]
+        plan['endpoint']['lease_script'].sort(key=lambda x: x['at'])
     script = []
     t = rng.randint(0, 30)
     lease_times = []
@@ -397,6 +404,12 @@ def gen_setup_client(seed, opts=None):
         ias.append(ia)
     plan['interactions'] = ias
     plan['horizon'] = 1.5 + (cfg['connect_delay'][1] if cfg.get('connect_delay', ['x'])[0] == 'time' else 0)
+    if rng.random() < 0.3:
+        # the transport provider itself suspends (it dials: asyncio.open_connection) before it yields the transport
+        cfg['provider_delay'] = _pick(rng, [(1, ['hops', rng.randint(1, 6)]), (1, ['time', _pick(rng, [(1, 0.0005), (1, 0.05), (1, 0.7)])])])
+        cfg['lifetime_us'] = max(cfg['lifetime_us'], 30_000_000)
+        if cfg['provider_delay'][0] == 'time':
+            plan['horizon'] += cfg['provider_delay'][1]
     return plan
 
 
